@@ -204,8 +204,14 @@ class Gen(object):
         if d.chance(1, 2):
             kids = []
             for _ in range(d.below(3)):
-                k = d.below(5)
-                if k == 0:
+                k = d.below(7)
+                if k == 5:
+                    # HTML integration points: HTML flow content inside SVG
+                    inner = d.pick([[E("div", [], [T("x")])], [E("p", [], [T("y")]), E("ul", [], [E("li", [], [T("i")])])], [E("h2", [], [T("h")])], [T("t"), E("b", [], [T("b")])]])
+                    kids.append(E("foreignObject", [[None, "width", "1"]] if d.chance(1, 2) else [], inner, SVG_NS))
+                elif k == 6:
+                    kids.append(E(d.pick(["desc", "title"]), [], [T("d"), E("em", [], [T("e")])] if d.chance(1, 2) else [E("p", [], [T("q")])], SVG_NS))
+                elif k == 0:
                     kids.append(E("circle", [[None, "r", "1"]] + ([[None, "cx", self.attr_value()]] if d.chance(1, 2) else []), [], SVG_NS))
                 elif k == 1:
                     kids.append(E("g", [], [E("path", [[None, "d", "M0 0"]], [], SVG_NS)], SVG_NS))
@@ -223,6 +229,10 @@ class Gen(object):
         for _ in range(d.below(3)):
             nm = d.pick(["mi", "mo", "mn"])
             kids.append(E(nm, [], [T(d.pick(["x", "+", "1", "y", "\u2211", "&", "<"]))], MATHML_NS))
+        if d.chance(1, 4):
+            # MathML text integration point / annotation-xml with HTML content
+            kids.append(E("mtext", [], [T("t"), E("b", [], [T("b")])], MATHML_NS) if d.chance(1, 2) else
+                        E("annotation-xml", [[None, "encoding", d.pick(["text/html", "application/xhtml+xml"])]], [E("div", [], [T("a")]), E("p", [], [T("p")])], MATHML_NS))
         if d.chance(1, 3):
             kids = [E("mrow", [], kids, MATHML_NS)]
         attrs = [[None, "definitionURL", "u"]] if d.chance(1, 4) else []
@@ -784,10 +794,12 @@ def check_no_errors(case):
                             ("other conforming spellings", writer_styled(doc, salt + 1))):
         p = h5.parser("etree", True, full_tree=True)
         tree = p.parse(markup)
-        if obs.clarkify(obs.flat(tree)) != want:
-            if variant == "explicit":
-                return Verdict("excluded", finding="generated tree not parsed back from the explicit writer (C01-class deviation)")
-            continue      # html5lib parses the tag-omitted form differently (C01-class deviation, e.g. dialog/p): not this clause's business
+        # Whether the tree is the generated one is C01's / C07's business; this clause is about errors only (a parser that builds
+        # another tree for a conforming document usually reports an error on the way).  Exception: the optional-tag rules of the
+        # standard, taken literally, allow omissions that change the parse (<body> before noscript...): that variant is judged
+        # only when it parses to the generated tree.
+        if variant == "optional tags omitted" and obs.clarkify(obs.flat(tree)) != want:
+            continue
         if p.errors:
             e = p.errors[0]
             return Verdict("fail", "conforming document (%s) records parse error %r at %r; markup %s" % (variant, e[1], e[0], short(markup, 400)),
